@@ -199,8 +199,57 @@ def probe_usage(layer, meth, variant=""):
         for j, (nm, src) in enumerate(fields):
             if src[0] in ("Unknown", "Const") and follows[j]:
                 fields[j] = [nm, ["Fun", fn, follows[j]]]
+    falsy_bad = falsy_probe(layer, meth, kw, cv, fields)
     return {"plat": plat, "meth": meth, "variant": variant, "shape": cv["shape"], "type": cv["type"],
-            "fields": fields, "deps": deps}
+            "fields": fields, "deps": deps, "falsy_bad": falsy_bad}
+
+
+FALSY = (0, -1)
+
+
+def record_with(plat, fn, idx, val):
+    """records override putting val into slot idx of int-record function fn (other slots: the sentinels)."""
+    for f, n, st in S.RECORDS[plat]:
+        if f == fn:
+            v = [S.BASE[fn] + j for j in range(n)]
+            v[idx] = val
+            return {fn: v}
+    if fn == "proc_threads":
+        v = [S.BASE[fn] + j for j in range(6)]
+    elif fn == "proc_open_files":
+        v = [S.BASE[fn] + j for j in range(2)]
+    else:
+        v = [S.BASE[fn]]
+    v[idx] = val
+    return {fn: v}
+
+
+def falsy_probe(layer, meth, kw, cv, fields):
+    """For every field that is a copy of a native int slot: put 0 / -1 there; the field must come back as that value."""
+    plat = layer.plat
+    bad = []
+    for j, (nm, src) in enumerate(fields):
+        if src[0] != "Slot":
+            continue
+        fn, idx, mul = src[1], src[2], src[3]
+        for val in FALSY:
+            if meth == "terminal" and val == S.NOTTY:
+                continue                      # -1 is the stub's "no controlling terminal" number
+            if fn in S.INT_FNS:
+                extra = {"records": record_with(plat, fn, idx, val)}
+            elif fn in S.ROWFNS and isinstance(layer.row(fn)[idx], int):
+                extra = {"rowset": {fn: {idx: val}}}
+            else:
+                continue
+            k2, r2 = layer.run(meth, **dict(kw, **extra))
+            ok = False
+            if k2 == "val":
+                cv2 = canon_value(r2)
+                ok = (cv2["shape"] == cv["shape"] and cv2["type"] == cv["type"] and len(cv2["fields"]) == len(fields)
+                      and cv2["fields"][j][1] == val * mul)
+            if not ok:
+                bad.append([nm, val])
+    return bad
 
 
 def discover_sites(layer, meth, pid):
@@ -310,7 +359,7 @@ def run_nic(fe, fam, addr, mask, bcast):
 
 def probe_all(impl_dir, workdir):
     out = {"slot_maps": [], "usage": [], "ladder": [], "sites": {}, "names": [], "nic": [], "methods": {},
-           "status": [], "sladder": [], "pairs": [], "retry": [], "wait": [], "sysfields": []}
+           "status": [], "sladder": [], "pairs": [], "retry": [], "wait": [], "sysfields": [], "allfail": []}
     for plat in S.PLATS:
         layer = S.Layer(plat, impl_dir)
         for m in MAPS[plat]:
@@ -343,6 +392,23 @@ def probe_all(impl_dir, workdir):
                 for code, _text in codes:
                     so = [out_code(ladder_outcome(layer, meth, site, "ESRCH", "code:" + code, pid), pid) for pid in (7, 0)]
                     out["sladder"].append({"plat": plat, "meth": meth, "site": site, "code": code, "outs": so})
+        # every native call of the method fails with the same error (the really gone / off-limits process)
+        for meth in ms:
+            sites = out["sites"][plat][meth]
+            first = (sites["7"] or sites["0"] or [None])[0]
+            if first is None:
+                continue
+            outs = []
+            for (e, st, pid0) in cond_list(plat):
+                pid = 0 if pid0 else 7
+                kind, r = layer.run(meth, pid=pid, state=st, faults={"*": [(None, e)]})
+                outs.append(out_code(S.classify(layer, kind, r), pid))
+            out["allfail"].append({"plat": plat, "meth": meth, "site": first, "outs": outs})
+        # system-wide functions of the platform module that build process-related tuples
+        if plat != "macos":
+            u = probe_usage(layer, "sys:net_connections")
+            if u is not None:
+                out["usage"].append(u)
         for meth, s1, s2 in PAIRS.get(plat, []):
             outs = [out_code(pair_outcome(layer, meth, s1, s2, e1, e2, st, 0 if z else 7), 0 if z else 7)
                     for (e1, e2, st, z) in pair_cond_list(plat)]
@@ -442,10 +508,11 @@ def emit_coq(data):
     L.append("Definition usage_rows : list urow := [")
     rows = []
     for u in data["usage"]:
-        rows.append("  Build_urow %s %s %s %s %s [%s] [%s]" % (
+        rows.append("  Build_urow %s %s %s %s %s [%s] [%s] [%s]" % (
             COQ_PLAT[u["plat"]], qs(u["meth"]), qs(u["variant"]), u["shape"], qs(u["type"]),
             "; ".join("(%s, %s)" % (qs(n), src_coq(s)) for n, s in u["fields"]),
-            "; ".join("(%s, %s)" % (qs(fn), zlit(i)) for fn, i in u["deps"])))
+            "; ".join("(%s, %s)" % (qs(fn), zlit(i)) for fn, i in u["deps"]),
+            "; ".join("(%s, %s)" % (qs(n), zlit(v)) for n, v in u["falsy_bad"])))
     L.append(";\n".join(rows))
     L.append("].\n")
     L.append("Definition ladder_blocks : list lblock := [")
@@ -461,6 +528,10 @@ def emit_coq(data):
                 outs.append("GOther")
         rows.append("  Build_lblock %s %s %s [%s]" % (COQ_PLAT[b["plat"]], qs(b["meth"]), qs(b["site"]), "; ".join(outs)))
     L.append(";\n".join(rows))
+    L.append("].\n")
+    L.append("Definition all_blocks : list lblock := [")
+    L.append(";\n".join("  Build_lblock %s %s %s [%s]" % (COQ_PLAT[b["plat"]], qs(b["meth"]), qs(b["site"]), _outs_coq(b["outs"]))
+                        for b in data["allfail"]))
     L.append("].\n")
     L.append("Definition status_rows : list srow := [")
     L.append(";\n".join("  Build_srow %s [%s]" % (COQ_PLAT[r["plat"]], "; ".join("(%s, %s)" % (qs(c), qs(t)) for c, t in r["codes"]))
